@@ -261,6 +261,11 @@ func check(prop, tier string, writeLock bool, filter string) int {
 		return violation("contract-resolution", err.Error())
 	}
 	loadS := time.Since(t0).Seconds()
+	if os.Getenv("GOVC_DEBUGKEYS") != "" {
+		for k := range g.contracts {
+			fmt.Println("contract key:", k)
+		}
+	}
 
 	var vcs []*VC
 	var obls []*Obligation
@@ -314,6 +319,17 @@ func check(prop, tier string, writeLock bool, filter string) int {
 	}
 	if len(genErrs) > 0 {
 		return violation("vc-generation", strings.Join(genErrs, " | "))
+	}
+	{
+		// clauses tagged with a property list contribute their obligations to those properties only
+		kept := obls[:0]
+		for _, o := range obls {
+			if ps := clauseProps(o.Src); ps != nil && !hasProp(ps, prop) {
+				continue
+			}
+			kept = append(kept, o)
+		}
+		obls = kept
 	}
 	if len(obls) == 0 {
 		return violation("no-obligations", "zero obligations generated: the verifier decided nothing")
@@ -578,7 +594,7 @@ func writeEvidence(path, prop, tier string, seed int, obls []*Obligation, sample
 	}
 	cov := map[string]interface{}{
 		"obligations": nObl, "discharged": nDis,
-		"checker_cmd": fmt.Sprintf("/verif/bin/govc check %s %s  (go/ssa VC generator; z3-new 5.1.0 | cvc5 1.0 | z3 4.8.12 portfolio)", prop, tier),
+		"checker_cmd":  fmt.Sprintf("/verif/bin/govc check %s %s  (go/ssa VC generator; z3-new 5.1.0 | cvc5 1.0 | z3 4.8.12 portfolio)", prop, tier),
 		"trusted_base": []string{"golang.org/x/tools v0.29.0 go/packages+go/types+go/ssa as the semantics of the Go source", "govc SSA->SMT translation (this repository, /verif/govc)", "SMT solvers z3 5.1.0, z3 4.8.12, cvc5 1.0", "assumed contracts listed under assumptions"},
 		"samples":      samples,
 		"rule":         "one obligation per contract clause, loop-invariant init/preserve, call-site precondition, site assertion, frame condition and vacuity cover; generated from the SSA of /repo's working tree on this run",
